@@ -5,6 +5,7 @@ import (
 	"time"
 
 	fpgo "github.com/TeaEntityLab/fpGo/v2"
+	"github.com/TeaEntityLab/fpGo/v2/worker"
 	"verif.local/simrt"
 )
 
@@ -32,15 +33,18 @@ type c15UserOp struct {
 }
 
 type c15Scenario struct {
-	Kind       string        `json:"kind"`
-	Cap        int           `json:"cap"`
-	BufMax     int           `json:"buf_max"`
-	HookSize   int           `json:"hook_size"`
-	LoadDur    time.Duration `json:"load_dur"`
-	FreeDur    time.Duration `json:"free_dur"`
-	Users      [][]c15UserOp `json:"users"`
-	CloseDelay int           `json:"close_delay_yields"`
-	CloseSleep time.Duration `json:"close_sleep"`
+	Kind        string        `json:"kind"`
+	Cap         int           `json:"cap"`
+	BufMax      int           `json:"buf_max"`
+	HookSize    int           `json:"hook_size"`
+	LoadDur     time.Duration `json:"load_dur"`
+	FreeDur     time.Duration `json:"free_dur"`
+	Users       [][]c15UserOp `json:"users"`
+	PoolMax     int           `json:"pool_max,omitempty"`
+	PoolStandBy int           `json:"pool_standby,omitempty"`
+	CloseQueue  bool          `json:"close_queue_with_pool,omitempty"`
+	CloseDelay  int           `json:"close_delay_yields"`
+	CloseSleep  time.Duration `json:"close_sleep"`
 
 	h         *Hist
 	hung      bool
@@ -52,7 +56,7 @@ type c15Scenario struct {
 
 func genC15(t *simrt.Tape, tier string) Scenario {
 	sc := &c15Scenario{probes: map[string]int{}}
-	kinds := []string{"queue"}
+	kinds := []string{"queue", "handler", "actor", "pool", "cor"}
 	sc.Kind = kinds[t.Choose(len(kinds))]
 	maxUsers, maxOps := 3, 4
 	if tier == "thorough" {
@@ -79,6 +83,52 @@ func genC15(t *simrt.Tape, tier string) Scenario {
 			}
 			sc.Users = append(sc.Users, ops)
 		}
+	case "handler", "actor":
+		sc.Cap = []int{0, 1, 3}[t.Choose(3)]
+		nu := 1 + t.Choose(maxUsers)
+		for u := 0; u < nu; u++ {
+			n := 1 + t.Choose(maxOps)
+			var ops []c15UserOp
+			for i := 0; i < n; i++ {
+				ops = append(ops, c15UserOp{Kind: "Post"})
+			}
+			sc.Users = append(sc.Users, ops)
+		}
+	case "pool":
+		sc.Cap = []int{1, 2, 3}[t.Choose(3)]
+		sc.BufMax = []int{2, 0, 5}[t.Choose(3)]
+		sc.LoadDur = []time.Duration{time.Millisecond, 100 * time.Microsecond, 5 * time.Millisecond}[t.Choose(3)]
+		sc.PoolMax = 1 + t.Choose(3)
+		sc.PoolStandBy = 1 + t.Choose(sc.PoolMax)
+		sc.CloseQueue = !t.Bool(1, 3)
+		nu := 1 + t.Choose(maxUsers)
+		for u := 0; u < nu; u++ {
+			n := 1 + t.Choose(maxOps)
+			var ops []c15UserOp
+			for i := 0; i < n; i++ {
+				op := c15UserOp{Kind: []string{"Schedule", "ScheduleWithTimeout"}[t.Choose(2)]}
+				if op.Kind == "ScheduleWithTimeout" {
+					op.D = []time.Duration{time.Millisecond, 5 * time.Millisecond, 20 * time.Millisecond}[t.Choose(3)]
+				}
+				ops = append(ops, op)
+			}
+			sc.Users = append(sc.Users, ops)
+		}
+	case "cor":
+		// the target serves Cap requests (never more than the callers issue), then its effect
+		// returns (completion = close)
+		nu := 1 + t.Choose(maxUsers)
+		total := 0
+		for u := 0; u < nu; u++ {
+			n := 1 + t.Choose(maxOps)
+			total += n
+			var ops []c15UserOp
+			for i := 0; i < n; i++ {
+				ops = append(ops, c15UserOp{Kind: "YieldFrom"})
+			}
+			sc.Users = append(sc.Users, ops)
+		}
+		sc.Cap = t.Choose(total + 1)
 	}
 	sc.CloseDelay = t.Choose(12)
 	if t.Bool(1, 4) {
@@ -104,6 +154,249 @@ func (sc *c15Scenario) Run(s *simrt.Sim) {
 	switch sc.Kind {
 	case "queue":
 		sc.runQueue(s)
+	case "handler":
+		sc.runHandler(s)
+	case "actor":
+		sc.runActor(s)
+	case "pool":
+		sc.runPool(s)
+	case "cor":
+		sc.runCor(s)
+	}
+}
+
+// runClosing starts the closer thread and waits (then fairly) for users + closer.
+func (sc *c15Scenario) runClosing(s *simrt.Sim, ths []*simrt.Thread, closeFn func()) bool {
+	h := sc.h
+	closer := s.Go("closer", func() {
+		for i := 0; i < sc.CloseDelay; i++ {
+			s.YieldHard()
+		}
+		if sc.CloseSleep > 0 {
+			s.Sleep(sc.CloseSleep)
+		}
+		sc.closeOp = h.Do("closer", "Close", nil, func() (interface{}, error) { closeFn(); return nil, nil })
+	})
+	ths = append(ths, closer)
+	done := allDone(ths)
+	if !s.WaitUntilTimeout(done, 20*time.Second) {
+		s.SetFair(true)
+		if !s.WaitUntilTimeout(done, 5*time.Minute) {
+			sc.hung = true
+			return false
+		}
+	}
+	s.SetFair(true)
+	return true
+}
+
+type c15Work struct {
+	id     int
+	sub    *Op
+	ranAt  []uint64
+	thread int
+}
+
+// checkLateWork: nothing submitted after the close returned may run.
+func (sc *c15Scenario) checkLateWork(works []*c15Work, what string) {
+	if sc.closeOp == nil || !sc.closeOp.Returned {
+		return
+	}
+	for _, w := range works {
+		if w.sub != nil && w.sub.Inv > sc.closeOp.Ret && len(w.ranAt) > 0 {
+			sc.extra = append(sc.extra, Violation{Clause: "ran-after-close", Fingerprint: sc.Kind + "." + what,
+				Detail: fmt.Sprintf("%s was submitted after Close returned but its callback ran", w.sub.String())})
+		}
+		if len(w.ranAt) > 1 {
+			sc.extra = append(sc.extra, Violation{Clause: "ran-twice", Fingerprint: sc.Kind + "." + what, Detail: fmt.Sprintf("%s ran %d times", w.sub.String(), len(w.ranAt))})
+		}
+	}
+}
+
+func (sc *c15Scenario) runHandler(s *simrt.Sim) {
+	h := sc.h
+	var hd *fpgo.HandlerDef
+	if sc.Cap == 0 {
+		hd = fpgo.Handler.New()
+	} else {
+		hd = fpgo.Handler.NewByCh(make(chan func(), sc.Cap))
+	}
+	var works []*c15Work
+	post := func(name string) {
+		w := &c15Work{id: len(works)}
+		works = append(works, w)
+		w.sub = h.Do(name, "Post", w.id, func() (interface{}, error) {
+			hd.Post(func() { w.ranAt = append(w.ranAt, s.Stamp()); s.Yield() })
+			return nil, nil
+		})
+	}
+	var ths []*simrt.Thread
+	for u, ops := range sc.Users {
+		ops := ops
+		name := fmt.Sprintf("user%d", u)
+		ths = append(ths, s.Go(name, func() {
+			for range ops {
+				post(name)
+				s.Yield()
+			}
+		}))
+	}
+	if !sc.runClosing(s, ths, func() { hd.Close() }) {
+		return
+	}
+	post("main")
+	s.Sleep(time.Second)
+	sc.checkLateWork(works, "Post")
+}
+
+func (sc *c15Scenario) runActor(s *simrt.Sim) {
+	h := sc.h
+	var works []*c15Work
+	effect := func(self *fpgo.ActorDef[int], msg int) {
+		if msg >= 0 && msg < len(works) {
+			works[msg].ranAt = append(works[msg].ranAt, s.Stamp())
+		}
+		s.Yield()
+	}
+	var a *fpgo.ActorDef[int]
+	if sc.Cap == 0 {
+		a = fpgo.ActorNewGenerics(effect)
+	} else {
+		a = fpgo.ActorNewByOptionsGenerics(effect, make(chan int, sc.Cap), map[string]interface{}{})
+	}
+	send := func(name string) {
+		w := &c15Work{id: len(works)}
+		works = append(works, w)
+		w.sub = h.Do(name, "Send", w.id, func() (interface{}, error) { a.Send(w.id); return nil, nil })
+	}
+	var ths []*simrt.Thread
+	for u, ops := range sc.Users {
+		ops := ops
+		name := fmt.Sprintf("user%d", u)
+		ths = append(ths, s.Go(name, func() {
+			for range ops {
+				send(name)
+				s.Yield()
+			}
+		}))
+	}
+	if !sc.runClosing(s, ths, func() { a.Close() }) {
+		return
+	}
+	send("main")
+	op := h.Do("main", "IsClosed", nil, func() (interface{}, error) { return a.IsClosed(), nil })
+	if op.Panic == "" && op.Val != true {
+		sc.extra = append(sc.extra, Violation{Clause: "post-close-result", Fingerprint: "actor.IsClosed", Detail: "IsClosed() false after Close returned"})
+	}
+	s.Sleep(time.Second)
+	sc.checkLateWork(works, "Send")
+}
+
+func (sc *c15Scenario) runPool(s *simrt.Sim) {
+	h := sc.h
+	q := fpgo.NewBufferedChannelQueue[func()](sc.Cap, sc.BufMax, 1)
+	q.SetLoadFromPoolDuration(sc.LoadDur)
+	pool := worker.NewDefaultWorkerPool(q, nil)
+	pool.SetPanicHandler(func(v interface{}) {
+		sc.extra = append(sc.extra, Violation{Clause: "panic-handler", Fingerprint: "pool:foreign-panic:" + normPanic(v),
+			Detail: fmt.Sprintf("the pool's panic handler was invoked with %q although no job panics in this scenario", fmt.Sprint(v))})
+	})
+	pool.SetWorkerSizeMaximum(sc.PoolMax).SetWorkerSizeStandBy(sc.PoolStandBy).SetWorkerBatchSize(1).
+		SetSpawnWorkerDuration(time.Millisecond).SetWorkerExpiryDuration(20 * time.Millisecond).SetScheduleRetryInterval(time.Millisecond).
+		SetIsJobQueueClosedWhenClose(sc.CloseQueue)
+	var works []*c15Work
+	sched := func(name string, op c15UserOp) {
+		w := &c15Work{id: len(works)}
+		works = append(works, w)
+		job := func() { w.ranAt = append(w.ranAt, s.Stamp()); s.Yield() }
+		if op.Kind == "ScheduleWithTimeout" {
+			w.sub = h.Do(name, "ScheduleWithTimeout", w.id, func() (interface{}, error) { return nil, pool.ScheduleWithTimeout(job, op.D) })
+		} else {
+			w.sub = h.Do(name, "Schedule", w.id, func() (interface{}, error) { return nil, pool.Schedule(job) })
+		}
+	}
+	var ths []*simrt.Thread
+	for u, ops := range sc.Users {
+		ops := ops
+		name := fmt.Sprintf("user%d", u)
+		ths = append(ths, s.Go(name, func() {
+			for _, op := range ops {
+				sched(name, op)
+				s.Yield()
+			}
+		}))
+	}
+	if !sc.runClosing(s, ths, func() { pool.Close() }) {
+		return
+	}
+	sched("main", c15UserOp{Kind: "Schedule"})
+	if op := works[len(works)-1].sub; op.Panic == "" && op.Err != worker.ErrWorkerPoolIsClosed {
+		sc.extra = append(sc.extra, Violation{Clause: "post-close-result", Fingerprint: "pool.Schedule", Detail: "after Close returned: " + op.String() + ": want ErrWorkerPoolIsClosed"})
+	}
+	sched("main", c15UserOp{Kind: "ScheduleWithTimeout", D: time.Millisecond})
+	if op := works[len(works)-1].sub; op.Panic == "" && op.Err != worker.ErrWorkerPoolIsClosed {
+		sc.extra = append(sc.extra, Violation{Clause: "post-close-result", Fingerprint: "pool.ScheduleWithTimeout", Detail: "after Close returned: " + op.String() + ": want ErrWorkerPoolIsClosed"})
+	}
+	op := h.Do("main", "IsClosed", nil, func() (interface{}, error) { return pool.IsClosed(), nil })
+	if op.Panic == "" && op.Val != true {
+		sc.extra = append(sc.extra, Violation{Clause: "post-close-result", Fingerprint: "pool.IsClosed", Detail: "IsClosed() false after Close returned"})
+	}
+	// let the workers notice the close (they re-check the flag when their idle timer fires)
+	s.Sleep(200 * time.Millisecond)
+	sc.checkLateWork(works, "Schedule")
+	for _, w := range works {
+		if w.sub != nil && w.sub.Returned && w.sub.Err != nil && len(w.ranAt) > 0 {
+			sc.extra = append(sc.extra, Violation{Clause: "rejected-ran", Fingerprint: "pool." + w.sub.Name, Detail: w.sub.String() + " was rejected but its job ran"})
+		}
+	}
+}
+
+func (sc *c15Scenario) runCor(s *simrt.Sim) {
+	h := sc.h
+	var target *fpgo.CorDef[int]
+	served := 0
+	target = fpgo.CorNewGenerics[int](func() {
+		for i := 0; i < sc.Cap; i++ {
+			target.YieldRef(1000 + i)
+			served++
+			s.Yield()
+		}
+		for i := 0; i < sc.CloseDelay; i++ {
+			s.YieldHard()
+		}
+		// returning completes the coroutine: this is the "close" of this kind
+	})
+	var ths []*simrt.Thread
+	callersDone := 0
+	for u, ops := range sc.Users {
+		ops := ops
+		name := fmt.Sprintf("caller%d", u)
+		var caller *fpgo.CorDef[int]
+		caller = fpgo.CorNewGenerics[int](func() {
+			for i := range ops {
+				x := u*100 + i
+				h.Do(name, "YieldFrom", x, func() (interface{}, error) { return caller.YieldFrom(target, x), nil })
+				s.Yield()
+			}
+			callersDone++
+		})
+		ths = append(ths, s.Go(name+"-starter", func() { caller.Start() }))
+	}
+	ths = append(ths, s.Go("target-starter", func() { target.Start() }))
+	n := len(sc.Users)
+	done := func() bool { return callersDone == n && target.IsDone() }
+	if !s.WaitUntilTimeout(done, 20*time.Second) {
+		s.SetFair(true)
+		if !s.WaitUntilTimeout(done, 5*time.Minute) {
+			sc.hung = true
+			return
+		}
+	}
+	s.SetFair(true)
+	sc.probes["close-overlapped-user-call"]++ // completion of the target is always concurrent with the callers here
+	op := h.Do("main", "IsDone", nil, func() (interface{}, error) { return target.IsDone(), nil })
+	if op.Panic == "" && op.Val != true {
+		sc.extra = append(sc.extra, Violation{Clause: "post-close-result", Fingerprint: "cor.IsDone", Detail: "IsDone() false after the effect returned"})
 	}
 }
 
